@@ -229,6 +229,10 @@ def gen_plan(seed: int, tier: str):
                                    'plus': d.weighted([(0, 6), (1, 2), (2, 1)])}
             if kinds in ('fail', 'both'):
                 att['fail'] = sorted(set(d.below(total) for _ in range(d.between(1, 3))))
+                if d.chance(1, 8):
+                    att['fail'] = list(range(total))          # every case of this attempt raises
+            if d.chance(1, 5):
+                att['avoid_crashes'] = not plan['avoid_crashes']   # the user changed the flag between calls
         plan['attempts'].append(att)
     return plan
 
